@@ -30,6 +30,7 @@ import (
 	"regexp"
 	"strconv"
 	"strings"
+	"unicode/utf8"
 
 	antlr "github.com/antlr/antlr4/runtime/Go/antlr/v4"
 	"github.com/cockroachdb/apd/v2"
@@ -1202,6 +1203,11 @@ func parseSmallUint(str string) uint64 {
 
 func parseHexCodepoint(str string) rune {
 	if v, err := strconv.ParseUint(str, 16, 32); err == nil {
+		if v > utf8.MaxRune || !utf8.ValidRune(rune(v)) {
+			// Surrogates and values beyond U+10FFFF are not characters (they
+			// would be written as U+FFFD silently).
+			panic(fmt.Errorf("%v is not a valid Unicode codepoint", str))
+		}
 		return rune(v)
 	} else {
 		panic(err)
